@@ -331,7 +331,9 @@ def run_locate(case, ctx):
         tags = {"part": p, "grid": g["kind"], "dim": dim, "refine": refine, "modes": modes, "threshold": str(thr), "rargs": "+".join(sorted(rargs)) or "default"}
         try:
             extra = {"num_processes": case["nproc"]} if case.get("nproc") else {}
+            image = field.data.tobytes()
             em = locate_droplets(field, threshold=thr, minimal_radius=minr, interface_width=iw, modes=modes, refine=refine, refine_args=dict(rargs), **extra)
+            ctx.check("C09.image-unmodified", field.data.tobytes() == image, None, tags)
             ctx.op()
         except ValueError as e:
             if modes > 0 and dim == 1 and "Perturbed droplets only supported" in str(e):
